@@ -106,7 +106,9 @@ def replayer(bld):
             spec1.update({'what': 'kick', 'axis': cex['axis'], 'off': [float(x) for x in cex['off'][b * n:(b + 1) * n]]})
         else:
             w = WHAT2RUN[cex['replay']]
-            for s in (spec, spec1): s.update({'what': w, 'dt': cex.get('dt', 3), 'fptype': cex.get('fptype', 3)})
+            for s in (spec, spec1):
+                s.update({'what': w, 'dt': cex.get('dt', 3), 'fptype': cex.get('fptype', 3)})
+                if w == 'drift': s.update({'slip': [0.11, 0.013, 0.0017], 'E0': 1.3e9})      # the drift map of the snapshot world (harness build())
         oB = native_run(bld, spec, 'c08B')['out']; o1 = native_run(bld, spec1, 'c08s')['out']
         dev = max(abs(oB[b * n * n + i] - o1[i]) for i in range(n * n))
         scale = max(1e-30, max(abs(x) for x in o1))
